@@ -182,11 +182,13 @@ bool Exec<Cfg>::run_real(Op const& op) {
 			case O_CTOR_CONV: {
 				CArr<D> src(make_exts<D>(op.x));
 				for(long k = 0; k < static_cast<long>(src.num_elements()); ++k) src.data_elements()[k] = ET::make_conv(op.v + k);
-				int const  form = (op.var >> 1) & 3;
+				int const  form = (op.var >> 1) & 7;
 				bool const wa   = (op.var & 1) != 0;
 				auto const& csrc = src;
 				OpScope    s;
-				if(form == 0) { if(wa) new(raw) Arr<D>(csrc, al); else new(raw) Arr<D>(csrc); }
+				if(form == 3) new(raw) Arr<D>(src);
+				else if(form == 4) new(raw) Arr<D>(std::move(src));
+				else if(form == 0) { if(wa) new(raw) Arr<D>(csrc, al); else new(raw) Arr<D>(csrc); }
 				else if(form == 1) { if(wa) new(raw) Arr<D>(csrc(), al); else new(raw) Arr<D>(csrc()); }
 				else {
 					if constexpr(D >= 2) { if(wa) new(raw) Arr<D>(csrc.transposed(), al); else new(raw) Arr<D>(csrc.transposed()); }
